@@ -49,6 +49,11 @@ def cases(rng, quick, gr):
     for m in ["0.5", "1.0", "x", "1j", "2 * 1j", "1 / 2", "2 ** -1", "n / 2", "sqrt(4)", "pi", "s", "A[0] / 1"]:
         for tmpl in ["Op(1) | {F}", "Op | [0, {F}]", "MeasureX | ({F}, 1)", "for int i in 0:2\n    Op | [i, {F}]"]:
             yield {"tag": "mode-not-int", "text": HDR + DECLS + 'str s = "a"\n' + tmpl.replace("{F}", m) + "\n"}
+    # 3b. ... also when the value equals a mode number the program has already acted on
+    for m in ["1.0", "2 / 2", "fm", "1 + 0j", "F1[0]", "1e0"]:
+        for pre in ["Vac | 1\n", "Op(1) | [0, 1]\n", "for int i in 0:2\n    Vac | i\n"]:
+            for tmpl in ["Op(1) | {F}", "Op | [0, {F}]", "for int i in 0:2\n    Op | {F}"]:
+                yield {"tag": "mode-not-int-used-before", "text": HDR + DECLS + "float fm = 1.0\nfloat array F1 =\n    1.0, 2.0\n" + pre + tmpl.replace("{F}", m) + "\n"}
     # 4. complex into int/float variables and arrays, literal or computed
     for v in ["1+2j", "2j", "2 * (1+1j)", "1j * 1j", "exp(1j)", "x * 1j", "z", "z + 1"]:
         for ty in ["int", "float"]:
